@@ -484,7 +484,7 @@ static Outcome run_keys(const Case &c) {
   Outcome o;
   if (c.empty()) return o;
   auto A = [&](size_t i) -> int64_t { return i < c[0].a.size() ? c[0].a[i] : 0; };
-  int mode = (int)(((A(0) % 9) + 9) % 9);
+  int mode = (int)(((A(0) % 10) + 10) % 10);
   size_t slen = (size_t)std::min<int64_t>(std::max<int64_t>(A(1), 8), 900);
   std::string secret = prbytes((uint64_t)A(2), slen);
   for (auto &ch : secret) ch = "ABCDEFGHIJKLMNOPQRSTUVWXYZabcdefghijklmnopqrstuvwxyz0123456789+/"[(unsigned char)ch % 64];
@@ -513,6 +513,7 @@ static Outcome run_keys(const Case &c) {
   case 5: f += "ACCESS_KEY_ID=" + id; break;                         // missing EOL at the end
   case 6: if (!id_first) f += "ACCESS_KEY_ID=" + id + "\n"; break;   // valid file (success path)
   case 8: f += "SOME_VERY_LONG_LINE_WITHOUT_MEANING=" + std::string(150 + (size_t)(A(2) & 511), 'x') + "\nJUNK LINE\n"; break;  // a later line far longer than the secret line (a line buffer has to grow), then a failure
+  case 9: f += std::string(A(2) & 1 ? "[default]" : "[profile backup]") + "\nACCESS_KEY_ID=" + id + "\nJUNK LINE\n"; break;  // an INI-style section header (the AWS CLI's credentials file has them) after the secret, then more lines
   case 7: f += "OTHER_KEY=value\nACCESS_KEY_ID=" + id + "\n"; break;  // a valid file, but reading it fails (EIO) after the secret line has been delivered
   }
   int fd = memfd_create("keys", 0);
@@ -567,7 +568,7 @@ static Outcome run_keys(const Case &c) {
 static rc::Gen<Case> gen_keys(int) {
   return rc::gen::exec([]() {
     Case c;
-    c.push_back(Op("keys", {*range<int>(0, 8), *rc::gen::weightedOneOf<int64_t>({{3, range<int64_t>(8, 60)}, {1, range<int64_t>(60, 900)}}), *rc::gen::arbitrary<int>(), *range<int>(0, 1),
+    c.push_back(Op("keys", {*range<int>(0, 9), *rc::gen::weightedOneOf<int64_t>({{3, range<int64_t>(8, 60)}, {1, range<int64_t>(60, 900)}}), *rc::gen::arbitrary<int>(), *range<int>(0, 1),
                            *rc::gen::weightedElement<int>({{6, 0}, {2, 1}, {1, 2}, {1, 3}, {1, 4}, {1, 5}})}));
     return c;
   });
